@@ -321,6 +321,8 @@ NON_ATOMIC = {"md url"}
 
 
 # ------------------------------------------------------------------------------ monitor
+TEARDOWN = ("free", "destroy", "done")        # second word of the op that releases a structure
+ONESHOT = ("pg", "fn", "mbs", "cxs")           # families whose ops keep nothing
 LIVE_RE = re.compile(r" live=(\d+)$")
 
 
@@ -357,7 +359,11 @@ def monitor(lines, c_lines, non_atomic=NON_ATOMIC, strict_live=True):
             if not m:
                 yield i, "malformed end line: " + o, "protocol"
             elif m.group(3) != "0":
-                yield i, "memory still allocated after teardown: " + o, "leak"
+                # only a script that ends with its teardown (or consists of one-shot ops) can leak;
+                # this also keeps the shrinker from dropping the teardown
+                last = lines[i - 1].split() if i > 0 else []
+                if (len(last) >= 2 and last[1] in TEARDOWN) or (last and last[0] in ONESHOT):
+                    yield i, "memory still allocated after teardown: " + o, "leak"
             continue
         s = split_out(o)
         if s is None:
@@ -632,7 +638,9 @@ def run(ck):
                       "set of failing request numbers: every single k in 1..n (n = requests of the fault-free run, "
                       "exhaustive) plus random pairs; a case is non-trivial when distinct; 'fired' counts cases in "
                       "which the injected failure was actually reached")
-    rng = vf.SplitMix(ck.seed)
+    # vf.SplitMix(seed) is one fixed splitmix64 sequence entered at offset `seed`: streams of
+    # neighbouring seeds would overlap after a few draws, so the seeds are spread 2^32 steps apart
+    rng = vf.SplitMix(ck.seed * 4294967311 + 10)
     nscripts = ck.scale(20, 500)
     ndouble = ck.scale(3, 10)
     hcmd = bins["h"]
